@@ -80,6 +80,11 @@ def load_cases(root: str, prop: str | None = None):
 def overlay_for(root: str, case) -> dict[str, str] | None:
     if "diff" in case:
         return _apply_diff(root, case["diff"], reverse=case.get("reverse", False))
+    if "range" in case:  # several dependent fix commits reverted together: reverse of `git diff A B`
+        p = subprocess.run(["git", "-C", root, "diff", case["range"][0], case["range"][1]], stdout=subprocess.PIPE, text=True)
+        if p.returncode != 0 or not p.stdout.strip():
+            return None
+        return _apply_diff(root, p.stdout, reverse=True)
     if "commit" in case:
         p = subprocess.run(["git", "-C", root, "show", "--format=", case["commit"]], stdout=subprocess.PIPE, text=True)
         if p.returncode != 0:
@@ -109,6 +114,7 @@ def run_case(args):
     ov = overlay_for(root, case)
     if ov is None:
         return {"id": case["id"], "prop": prop, "kind": case["kind"], "status": "stale", "detail": "anchor text / diff no longer applies to /repo"}
+    ov = {rel: text for rel, text in ov.items() if rel.endswith(".py")}  # .pxd / .pyx / docs are not analysed
     for rel, text in ov.items():
         try:
             ast.parse(text)
